@@ -212,8 +212,10 @@ impl<'a> GeneratorState<'a> {
                         self.carry_flag_ok = false;
                         Ok(ExprType::Y)
                     }
-                    ExprType::Nothing => unreachable!(),
-                    ExprType::Label(_) => unreachable!(),
+                    ExprType::Nothing => Err(self
+                        .compiler_state
+                        .syntax_error("Can't assign void to variable", pos)),
+                    ExprType::Label(_) => Err(self.compiler_state.syntax_error("Syntax error", pos)),
                 }
             }
             _ => {
@@ -420,7 +422,12 @@ impl<'a> GeneratorState<'a> {
                                 acc_in_use = false;
                                 self.acc_in_use = false;
                             }
-                            _ => unreachable!(),
+                            ExprType::Nothing => {
+                                return Err(self
+                                    .compiler_state
+                                    .syntax_error("Can't assign void to variable", pos))
+                            }
+                            _ => return Err(self.compiler_state.syntax_error("Syntax error", pos)),
                         };
                         match left {
                             ExprType::Absolute(a, b, c) => {
